@@ -71,6 +71,7 @@ class Ctx:
             "piped_exts": knobs.get("piped_exts", ()),
             "emfile_at": knobs.get("emfile_at"),
             "relpaths": knobs.get("relpaths", False),
+            "enospc": knobs.get("enospc"),
         }
         if knobs.get("preexist"):
             # a re-run: the output files are already there, longer than what will be written now
@@ -80,6 +81,14 @@ class Ctx:
                 for tok in ([a] if a.startswith("/simfs/") else [a.split("=", 1)[1]] if ("=/simfs/" in a and a.startswith("--")) else []):
                     if "{" not in tok and tok not in files:
                         files[tok] = stale
+        if knobs.get("devfd"):
+            trailing = []
+            for a in reversed(argv):
+                if a in files and a.startswith("/simfs/in"):
+                    trailing.append(a)
+                else:
+                    break
+            env["devfd_paths"] = trailing[::-1]
         if argv and argv[-1] == "-":
             # the (single) input file is fed to standard input
             cands = sorted(p for p in files if p == "/simfs/in" or p.startswith("/simfs/in."))
@@ -475,6 +484,10 @@ def build_evidence(prop_mod, seed, tier, judged, skipped, harness_errors, known_
     evaluated = sum(1 for r in judged if not r["discard"])
     if probes.get("env_emfile"):
         faults["emfile_on_open (environment)"] = probes["env_emfile"]
+    if probes.get("env_enospc"):
+        faults["disk_full_behind_an_output_file (environment)"] = probes["env_enospc"]
+    if probes.get("env_devfd_missing_in_spawned_child"):
+        faults["dev_fd_input_absent_in_spawned_child (environment)"] = probes["env_devfd_missing_in_spawned_child"]
     if probes.get("compressor_pipe_inherited_at_close"):
         faults["close_waits_for_forked_holders_of_compressor_pipe (environment)"] = probes["compressor_pipe_inherited_at_close"]
     cov = {
